@@ -121,8 +121,8 @@ def run_gen(prop, tier, tree, record):
     from checks import gen_monitor as gm
     t0 = time.time()
     code, ev = 0, None
-    if prop == "C14":
-        code, ev = driver.check_property("C14", tier=tier, tree=tree, record=record, level="other", design_ref="5/C14")
+    # deductive part: dynamics determinism (C14); generator arithmetic / structure functions (C15, C16-G1)
+    code, ev = driver.check_property(prop, tier=tier, tree=tree, record=record, level="other", design_ref="5/" + prop)
     rdir = os.path.join(driver.VERIF, "replays")
     os.makedirs(rdir, exist_ok=True)
     res, ngrid, seeds = gm.run_grid(tree, tier)
